@@ -47,6 +47,7 @@ var (
 )
 
 func shadowReset() {
+	accessLog = nil
 	shadow = map[uintptr]*cell{}
 	conflicts = nil
 	confSeen = map[[5]uint32]bool{}
@@ -79,12 +80,28 @@ func report(c Conflict) {
 	conflicts = append(conflicts, c)
 }
 
+// AccessRec is one recorded access (only kept while LogAccesses is on).
+type AccessRec struct {
+	Task  int
+	Step  int64 // the task's step count at the access
+	Site  uint32
+	Addr  uintptr
+	Write bool
+}
+
+// LogAccesses makes RunTasks return the full access log (directed scheduling).
+var LogAccesses bool
+var accessLog []AccessRec
+
 func access(site uint32, addr uintptr, write, isMap bool) {
 	t := curTask
 	if t == nil || addr == 0 {
 		return
 	}
 	Accesses++
+	if LogAccesses && len(accessLog) < 400000 {
+		accessLog = append(accessLog, AccessRec{t.id, t.steps, site, addr, write})
+	}
 	c := shadow[addr]
 	if c == nil {
 		c = &cell{}
